@@ -97,7 +97,7 @@ CLAIMED["C16"] = {
 }
 NA.pop("C16", None)
 CLAIMED["C14"] = {
-    "text": "Bounded symbolic model checking of the REAL StreamJoinNode (process_left, process_right, update_watermark, is_within_window, evict_expired_events, generate_event_id; JoinType::Inner, JoinStrategy::TimeWindow): every history of K steps, each a left arrival, a right arrival or a watermark advance, with symbolic timestamps, join keys (incl. no key), window length, watermark values and an arbitrary symbolic join-condition relation; over the whole run every emitted pair must satisfy the join and be emitted at most once (always), and every joining pair must be emitted when no watermark advance came within eviction distance of an arrived event. K = 3 with the step kinds symbolic; K = 4 (quick) and K = 5 (thorough) by case split on the step kinds (every L/R/W sequence with at least one left and one right arrival is its own solver run, everything else symbolic; 14 of the 180 five-step sequences are too slow and left out by name). Quantifying over all side-tagged arrival sequences covers all pairs of per-stream sequences and all their merges; exactness makes the result independent of the interleaving.",
+    "text": "Bounded symbolic model checking of the REAL StreamJoinNode (process_left, process_right, update_watermark, is_within_window, evict_expired_events, generate_event_id; JoinType::Inner, JoinStrategy::TimeWindow): every history of K steps, each a left arrival, a right arrival or a watermark advance, with symbolic timestamps, join keys (incl. no key), window length, watermark values and an arbitrary symbolic join-condition relation; over the whole run every emitted pair must satisfy the join and be emitted at most once (always), and every joining pair must be emitted when no watermark advance came within eviction distance of an arrived event. K = 3 with the step kinds symbolic; K = 4 (quick and thorough: every L/R/W sequence with at least one left and one right arrival) and K = 5 (thorough: 12 selected sequences) by case split on the step kinds (each sequence is its own solver run, everything else symbolic). Quantifying over all side-tagged arrival sequences covers all pairs of per-stream sequences and all their merges; exactness makes the result independent of the interleaving.",
     "note": "At most 5 steps (events plus watermark advances): below the 4+4 events of the property's quantifier; the fully symbolic K = 4 run did not finish in 25 min, hence the case split. Key extractors / join condition are harness callbacks; ids unique per arrival; outer joins, count/session windows and join_manager routing outside. Trusted: rsym + library model (injective coding of format!(\"{}_{}\", id, ts)), z3, reference.",
 }
 NA.pop("C14", None)
